@@ -109,6 +109,12 @@ def run_ops(n, scale, ops_source, rng, length):
                 g.unreveal_value(Coalition(op["c"]))
             elif nm in ("set_values", "set_known_values", "set_lower_bounds", "set_upper_bounds"):
                 vals = np.array(op["xs"], dtype=np.float64)
+                if rng is not None and len(op["xs"]) and all(float(x).is_integer() for x in op["xs"]):
+                    form = rng.random()
+                    if form < 0.2:
+                        vals = np.array(op["xs"], dtype=np.int64)        # integer-typed values are values too
+                    elif form < 0.3:
+                        vals = np.array(op["xs"], dtype=np.float32)
                 cs = None if op.get("all") else [Coalition(c) for c in op["cs"]]
                 if cs is not None and rng is not None and rng.random() < 0.3:
                     cs = (c for c in cs)             # any Iterable is allowed by the signature: a one-shot generator
